@@ -1,18 +1,26 @@
 --------------------------- MODULE MC_TxBalance ---------------------------
-EXTENDS TxBalance, Json
-\* Direction A generator: one NDJSON case per visited body (base or corrupted), with the
-\* specification's verdict.  Used with -simulate (stratified random walks root -> group -> values
-\* -> base -> corruption, seeded from VERIF_SEED) so that every (group x corruption class) cell is
-\* drawn from, and with the small exhaustive emit config.
+EXTENDS TxBalance, Json, IOUtils
+\* Model-checking instance of TxBalance.tla and direction-A case generator.
 OffsetsC == {-1, 0, 1}
 SplitsC == {-2, -1, 1, 2}
 SplitsSmall == {-2, 1}
 Pat1 == {<<0, 1>>}
 Pat3 == {<<0, 0>>, <<0, 1>>, <<1, 2>>}
 Pat9 == (0..2) \X (0..2)
+
+\* ---- representatives: Reps seed-selected value choices per group and one seed-selected base per
+\* value choice, so that the emit run walks every (group x corruption class x position) cell.
+Seed == IF "VERIF_SEED" \in DOMAIN IOEnv THEN atoi(IOEnv.VERIF_SEED) ELSE 1
+Reps == IF "TXBAL_REPS" \in DOMAIN IOEnv THEN atoi(IOEnv.TXBAL_REPS) ELSE 1
+Pick(S, k) ==   \* k elements of S starting at a seed-dependent index of its canonical enumeration
+  IF S = {} THEN {}
+  ELSE LET q == SetToSeq(S) n == Len(q)
+       IN  {q[1 + ((Seed * 7919 + i * 104729) % n)] : i \in 1..k}
+RepValueChoices(g) == Pick(AllValueChoices(g), Reps)
+RepBases(g, w) == Pick(AllBases(g, w), 1)
+
 Case == [grp |-> grp, body |-> body, ctx |-> ctx, applied |-> applied,
          expect |-> [valid |-> Valid(body, ctx), rule |-> FirstFailing(body, ctx),
                      nvc |-> NoValueCreated(body, ctx), degenerate |-> Degenerate(body, ctx)]]
 Emit == HasBody => PrintT(<<"TXCASE", ToJson(Case)>>)
-\* In simulation every walk is followed to a body with MaxCorrupt corruptions; emit all bodies on the way.
 ===========================================================================
